@@ -57,6 +57,14 @@ AlphaSched == AlphaOf([Query |-> {"o", "lo", "s"}, T |-> {"s", "o"}])
 AlphaSchedF == AlphaOf([Query |-> {"o", "on", "lnn", "s"}, T |-> {"s", "sn"}])
 AlphaSchedM == AlphaOf([Mutation |-> {"m1", "m2", "m3", "m4", "ml"}, T |-> {"s", "sn"}])
 AlphaSchedM2 == AlphaOf([Mutation |-> {"m1", "m3", "ml"}, T |-> {"s"}])
+AlphaMultiV == AlphaOf([Query |-> {"f", "s"}])
+ArgOptsMulti == [ f |-> {<<ArgV("a", Lit("var", "n"))>>, <<ArgV("b", Lit("var", "x"))>>}, g |-> {<<ArgV("r", Lit("int", 2))>>} ]
+AlphaMultiO == AlphaOf([Query |-> {"o", "s"}, T |-> {"s"}])
+AlphaMultiF == AlphaOf([Query |-> {"on", "lnn", "s"}, T |-> {"sn"}])
+AlphaMultiT == AlphaOf([Query |-> {"on", "lo", "s"}])
+OKinds == {[o |-> "raise"], [o |-> "null"], [o |-> "len", n |-> 1]}
+OKindsRaise == {[o |-> "raise"]}
+VarValsSmall == [ v |-> {Bool(TRUE), Bool(FALSE)}, w |-> {Bool(FALSE)}, n |-> {Int(3)}, m |-> {Int(4)}, x |-> {Str("xs")}, y |-> {Int(5)} ]
 AllFieldNames == UNION {DOMAIN TypesExec[tn].fields : tn \in DOMAIN TypesExec}
 SomeFieldNames == {"o", "sn", "m2", "m3", "lnn"}
 AlphaMut == AlphaOf([Mutation |-> {"m1", "m3", "ml"}, T |-> {"s", "o"}])
